@@ -59,7 +59,7 @@ func checkBuild(w WS, o BuildOpts, p Prediction, res Result, sb *Sandbox, expect
 	for _, l := range p.Selected {
 		v := p.Verdict[l]
 		n := res.Started[l]
-		if n > 1 {
+		if n > 1 && !p.Faulted {
 			return pbt.Fail(sig("C03", "executed-twice"), "%s was executed %d times in one build%s", l, n, tail())
 		}
 		switch {
@@ -217,6 +217,7 @@ func RunHistory(h History, bin string, orc Oracles) (*Observation, error) {
 		}
 	}
 	model := NewModel()
+	modelMin := NewModel() // the minimal-mode sandbox has its own cache, hence its own model
 	w := h.WS.Clone()
 	editedSinceBuild := []string{}
 	perturbedSinceBuild := false
@@ -311,7 +312,8 @@ func RunHistory(h History, bin string, orc Oracles) (*Observation, error) {
 				}
 			}
 			if orc.Lockstep {
-				if err := lockstepBuild(w, o, model, sbMin, res, pred, expect, obs); err != nil {
+				modelMin.Ext = model.Ext
+				if err := lockstepBuild(w, o, modelMin, sbMin, res, pred, expect, obs); err != nil {
 					return obs, withHistory(err, obs)
 				}
 			}
@@ -336,9 +338,11 @@ func RunHistory(h History, bin string, orc Oracles) (*Observation, error) {
 			if pattern == "//..." {
 				for _, tt := range w.Targets {
 					model.Taint[tt.Label()] = true
+					modelMin.Taint[tt.Label()] = true
 				}
 			} else {
 				model.Taint[pattern] = true
+				modelMin.Taint[pattern] = true
 			}
 			if sbMin != nil {
 				_ = sbMin.Sync(w)
@@ -346,6 +350,15 @@ func RunHistory(h History, bin string, orc Oracles) (*Observation, error) {
 			}
 			obs.Log = append(obs.Log, fmt.Sprintf("#%d taint %s", i, pattern))
 			obs.Classes["taint"] = true
+		case st.Kind == "fault-wipe-cas":
+			sb.WipeCas(w)
+			if sbMin != nil {
+				sbMin.WipeCas(w)
+			}
+			model.CacheFault()
+			modelMin.CacheFault()
+			obs.Log = append(obs.Log, fmt.Sprintf("#%d wipe cas + workspace outputs", i))
+			obs.Classes["fault:wipe-cas"] = true
 		case strings.HasPrefix(st.Kind, "perturb-"):
 			if d := sb.Perturb(&w, st); d != "" {
 				obs.Log = append(obs.Log, fmt.Sprintf("#%d %s", i, d))
@@ -385,33 +398,42 @@ func SortedKeysInt(m map[string]int) []string {
 	return SortedKeys(b)
 }
 
-// lockstepBuild plays the same build with load_outputs=minimal in the second sandbox and compares (C15).
-func lockstepBuild(w WS, o BuildOpts, m *Model, sbMin *Sandbox, resAll Result, pred Prediction, expect map[string]map[string]OutFile, obs *Observation) error {
+// lockstepBuild plays the same build with load_outputs=minimal in the second sandbox (own cache, own model) and compares (C15).
+func lockstepBuild(w WS, o BuildOpts, mm *Model, sbMin *Sandbox, resAll Result, predAll Prediction, expect map[string]map[string]OutFile, obs *Observation) error {
 	if err := sbMin.Sync(w); err != nil {
 		return fmt.Errorf("harness: %w", err)
 	}
-	ext := m.Ext // markers were already advanced by the "all" run: give the minimal run the same starting markers
-	_ = ext
 	om := o
 	om.LoadOutputs = "minimal"
+	pred := mm.Predict(w, om)
 	res := sbMin.Build(om, buildCap)
 	tail := func() string {
 		return fmt.Sprintf("\nbuild args (minimal): %v exit=%d trace=%v\n--- output (minimal)\n%s\n--- all-mode: exit=%d trace=%v", buildArgs(om), res.Exit, res.Lines, clip(res.Out), resAll.Exit, resAll.Lines)
 	}
-	if res.TimedOut || crashRe.MatchString(res.Out) {
-		return pbt.Fail(sig("C04", "internal-crash"), "minimal-mode build crashed or hung%s", tail())
+	// the per-build oracles hold for the minimal sandbox in its own right
+	if err := checkBuild(w, om, pred, res, sbMin, expect, obs); err != nil {
+		if v, ok := err.(*pbt.Violation); ok {
+			return &pbt.Violation{Sig: v.Sig, Msg: "(load_outputs=minimal sandbox) " + v.Msg}
+		}
+		return err
 	}
 	if (res.Exit == 0) != (resAll.Exit == 0) {
 		return pbt.Fail(sig("C15", "exit-status-differs"), "load_outputs=all exits %d, load_outputs=minimal exits %d%s", resAll.Exit, res.Exit, tail())
 	}
-	if !pred.Uncertain {
+	hasMay := predAll.Uncertain || pred.Uncertain
+	for _, l := range pred.Selected {
+		if pred.Verdict[l] == May || predAll.Verdict[l] == May || pred.ModeSwitch[l] || predAll.ModeSwitch[l] {
+			hasMay = true
+		}
+	}
+	if !hasMay {
 		a, b := SortedKeysInt(resAll.Started), SortedKeysInt(res.Started)
 		if fmt.Sprint(a) != fmt.Sprint(b) {
 			return pbt.Fail(sig("C15", "executed-set-differs"), "executed under all: %v, under minimal: %v%s", a, b, tail())
 		}
 	}
 	if res.Exit == 0 {
-		// every output that exists in the minimal sandbox for an EXECUTED target equals the expectation
+		// every output of a target EXECUTED under minimal equals the expectation: all dependency outputs it read were present and current
 		var executed []string
 		for _, l := range pred.Selected {
 			if res.Started[l] > 0 {
@@ -421,17 +443,21 @@ func lockstepBuild(w WS, o BuildOpts, m *Model, sbMin *Sandbox, resAll Result, p
 		if err := sbMin.CompareOutputs(expect, executed); err != nil {
 			return pbt.Fail(sig("C15", "wrong-output-under-minimal"), "%v%s", err, tail())
 		}
-		hitDep := false
 		for _, l := range executed {
 			for _, d := range w.DirectDeps(w.Target(l)) {
 				if res.Started[d] == 0 {
-					hitDep = true
+					obs.NonTrivial["minimal-executed-with-cached-dependency"] = true
 				}
 			}
 		}
-		if hitDep {
-			obs.NonTrivial["minimal-executed-with-cached-dependency"] = true
-		}
 	}
+	started, ended := map[string]bool{}, map[string]bool{}
+	for l, n := range res.Started {
+		started[l] = n > 0
+	}
+	for l := range res.Ended {
+		ended[l] = true
+	}
+	mm.Commit(w, om, pred, started, ended, false)
 	return nil
 }
